@@ -259,9 +259,13 @@ package lua
 // documented order, and returns the right count. The IEEE exactness of math.* itself is the Go library's (assumed).
 // ---------------------------------------------------------------------------
 
+//@ uninterp pnOK(s string) bool
+//@ uninterp pnVal(s string) float64
 //@ trusted parseNumber
-//@ assume parseNumber is a pure function of its argument (strconv based); its language is the subject of C16
+//@ assume parseNumber is a pure function of its argument (strconv based): pnOK(s) says whether s is a numeral, pnVal(s) is its value; which strings are numerals is the subject of C16
 //@ noraise
+//@ ensures  (result1 == nil) <==> pnOK(number)
+//@ ensures  result1 == nil ==> same(result0, pnVal(number))
 //@ modifies nothing
 
 //@ uninterp m_Abs(x float64) float64
